@@ -37,6 +37,8 @@ PIPELINE = [
 
 def run(chk: Check) -> None:
     ix = get_index()
+    run_follow_imports(chk, ix)
+    run_status(chk, ix)
 
     r1 = chk.rule("R03.1", "reprocess_nodes performs snapshot < clear < strip < analyse < merge < check < snapshot < compare < update_deps on every normal path, returns the compared triggers, and the propagation loop re-queues error targets and resets protocol caches first", floor=12)
     rp = ix.func("mypy.server.update.reprocess_nodes")
@@ -151,3 +153,130 @@ def run(chk: Check) -> None:
                 r3.ok(key, where)
             else:
                 r3.violation(key, where, f"{v.name} does not reach {cn}.{fld}: a type nested there is not " + {"TypeReplaceVisitor": "re-pointed to the merged (live) TypeInfo", "TypeTriggersVisitor": "turned into a dependency trigger", "SnapshotTypeVisitor": "part of the snapshot"}[v.name])
+
+
+def run_follow_imports(chk: Check, ix) -> None:
+    """R03.4: the daemon's follow-imports walk visits every module found changed."""
+    r4 = chk.rule("R03.4", "fine_grained_increment_follow_imports: every module that find_reachable_changed_modules reports as changed is both updated and queued so that its own imports are followed; the queue is never filtered by the `seen` set the finder itself marks", floor=3)
+    f = ix.func("mypy.dmypy_server.Server.fine_grained_increment_follow_imports")
+    finder = ix.func("mypy.dmypy_server.Server.find_reachable_changed_modules")
+    fparams = [a.arg for a in finder.params]
+    # which parameter of the finder is a set it adds every returned module to?
+    marked = {a for a in fparams if any(isinstance(c, ast.Call) and isinstance(c.func, ast.Attribute) and c.func.attr in ("add", "update") and norm(c.func.value) == a for c in ast.walk(finder.node))}
+    if not marked:
+        raise AnalysisError("find_reachable_changed_modules no longer marks a `seen` parameter")
+    loops = [n for n in ast.walk(f.node) if isinstance(n, ast.While) and norm(n.test) == "worklist"]
+    if len(loops) != 1:
+        raise AnalysisError("follow-imports worklist loop not found")
+    loop = loops[0]
+    n_calls = 0
+    for scope, label in ((f.node, "initial"), (loop, "loop")):
+        body = scope.body
+        for st in body if scope is loop else [x for x in body if x is not loop]:
+            if not (isinstance(st, ast.Assign) and isinstance(st.value, ast.Call) and call_name(st.value) == "find_reachable_changed_modules" and isinstance(st.targets[0], ast.Tuple)):
+                continue
+            n_calls += 1
+            res = st.targets[0].elts[0]
+            resname = res.id if isinstance(res, ast.Name) else None
+            call = st.value
+            seen_args = set()
+            for i, a in enumerate(call.args):
+                pn = fparams[i + 1] if i + 1 < len(fparams) else None
+                if pn in marked:
+                    seen_args.add(norm(a))
+            later = [x for x in body[body.index(st) + 1:] if x is not loop]
+            updated = any(isinstance(c, ast.Call) and call_name(c) == "update" and c.args and norm(c.args[0]) == resname for x in later for c in ast.walk(x))
+            key = f"{label}: the changed modules found are passed to fine_grained_manager.update"
+            if updated:
+                r4.ok(key, f.loc(st))
+            else:
+                r4.violation(key, f.loc(st), "modules found changed are not re-processed")
+            queued = None
+            for x in later:
+                for c in ast.walk(x):
+                    if isinstance(c, ast.Call) and isinstance(c.func, ast.Attribute) and c.func.attr in ("extend", "append") and norm(c.func.value) == "worklist" and c.args:
+                        queued = c.args[0]
+                    if isinstance(c, ast.Assign) and norm(c.targets[0]) == "worklist":
+                        queued = c.value
+            key = f"{label}: every changed module found is queued for following its imports"
+            if queued is None:
+                r4.violation(key, f.loc(st), "the modules found changed are never put on the worklist: imports of a changed module are not followed")
+                continue
+            qt = norm(queued)
+            if qt in (resname, f"{resname}.copy()", f"list({resname})", f"{resname}[:]"):
+                r4.ok(key, f.loc(st))
+                continue
+            filt = []
+            if isinstance(queued, (ast.GeneratorExp, ast.ListComp)) and any(norm(g.iter) == resname for g in queued.generators):
+                for g in queued.generators:
+                    for c in g.ifs:
+                        for cmp_ in ast.walk(c):
+                            if isinstance(cmp_, ast.Compare) and isinstance(cmp_.ops[0], (ast.NotIn, ast.In)):
+                                filt.append(norm(cmp_.comparators[0]))
+            if any(x in seen_args for x in filt):
+                r4.violation(key, f.loc(queued), f"the queue is filtered by `{sorted(set(filt) & seen_args)[0]}`, the very set find_reachable_changed_modules adds each module it returns to: every changed module is dropped, so the walk follows imports only one changed module deep and modules below are treated as deleted")
+            elif isinstance(queued, (ast.GeneratorExp, ast.ListComp)):
+                r4.info(key + " (filtered)", f.loc(queued), f"queued through a filter on {filt}; not a set the finder marks")
+            else:
+                r4.violation(key, f.loc(queued), f"the worklist receives `{qt}`, not the list of changed modules")
+    if n_calls < 2:
+        raise AnalysisError("expected the initial and the in-loop call of find_reachable_changed_modules")
+
+
+def _atoms(e: ast.expr) -> set[str]:
+    if isinstance(e, ast.BoolOp):
+        return set().union(*[_atoms(v) for v in e.values])
+    if isinstance(e, ast.UnaryOp) and isinstance(e.op, ast.Not):
+        return _atoms(e.operand)
+    return {norm(e)}
+
+
+def _eval_bool(e: ast.expr, env: dict[str, bool]) -> bool:
+    if isinstance(e, ast.BoolOp):
+        vals = [_eval_bool(v, env) for v in e.values]
+        return all(vals) if isinstance(e.op, ast.And) else any(vals)
+    if isinstance(e, ast.UnaryOp) and isinstance(e.op, ast.Not):
+        return not _eval_bool(e.operand, env)
+    return env[norm(e)]
+
+
+def _same_truth_table(a: ast.expr, b: ast.expr) -> bool:
+    import itertools
+    atoms = sorted(_atoms(a) | _atoms(b))
+    for bits in itertools.product([False, True], repeat=len(atoms)):
+        env = dict(zip(atoms, bits))
+        if _eval_bool(a, env) != _eval_bool(b, env):
+            return False
+    return True
+
+
+def run_status(chk: Check, ix) -> None:
+    """R03.5: every daemon check response derives its status from the messages the way main() does."""
+    r5 = chk.rule("R03.5", "the status of a daemon check response is computed from the message list by the same predicate on every path (first check, incremental check) and that predicate is main()'s: non-zero only if some message is not a note", floor=3)
+    mm = ix.func("mypy.main.main")
+    main_pred = None
+    for n in ast.walk(mm.node):
+        if isinstance(n, ast.If) and any(isinstance(a, ast.Assign) and norm(a.targets[0]) == "code" for a in n.body):
+            if "messages" in norm(n.test):
+                main_pred = norm(n.test)
+                main_test = n.test
+    if main_pred is None:
+        raise AnalysisError("main(): the test deciding a non-zero exit code was not found")
+    r5.ok(f"main(): exit code is non-zero iff `{main_pred}`", mm.loc())
+    srv = ix.cls("mypy.dmypy_server.Server")
+    n_sites = 0
+    for mn, f in sorted(srv.methods.items()):
+        for a in ast.walk(f.node):
+            if isinstance(a, ast.Assign) and norm(a.targets[0]) == "status" and isinstance(a.value, ast.IfExp):
+                v = a.value
+                n_sites += 1
+                key = f"Server.{mn}: status = {norm(v)}"
+                shape = isinstance(v.body, ast.Constant) and v.body.value == 1 and isinstance(v.orelse, ast.Constant) and v.orelse.value == 0
+                if shape and not (_atoms(v.test) <= _atoms(main_test)):
+                    raise AnalysisError(f"Server.{mn}: status predicate `{norm(v.test)}` uses conditions main() does not ({sorted(_atoms(v.test) - _atoms(main_test))}); cannot compare")
+                if shape and _same_truth_table(v.test, main_test):
+                    r5.ok(key, f.loc(a))
+                else:
+                    r5.violation(key, f.loc(a), f"this path answers with a status that is not `1 if {main_pred} else 0`: the same program gets a different exit status from this daemon request than from a full run (for example output that consists only of notes)")
+    if n_sites < 2:
+        raise AnalysisError(f"only {n_sites} status computations found in dmypy_server.Server")
